@@ -213,6 +213,11 @@ def rewrite(path, _depth=0):
                 continue
             names = [x.strip() for x in code.split(',') if x.strip()]
             arrs = []
+            if ty in mod.structs or ty == 'cc_attributes':
+                # a C struct on the stack:  cdef cc_attributes args  ->  args = STRUCT('cc_attributes')
+                for nm in names:
+                    if re.match(r'^[A-Za-z_][A-Za-z_0-9]*$', nm):
+                        arrs.append("%s = STRUCT('%s')" % (nm, ty))
             for nm in names:
                 nm = nm.lstrip('*')
                 ma = re.match(r'^([A-Za-z_][A-Za-z_0-9]*)\s*\[(.+)\]$', nm)
